@@ -16,6 +16,9 @@ type SlotContent struct {
 	Props map[string]any
 	// TemplateNode holds the original template node for processing scoped slots.
 	TemplateNode *html.Node
+	// Scope is the slot scope that was in effect where the content was written
+	// (the includer's), used when the content itself contains <slot> elements.
+	Scope *SlotScope
 }
 
 // SlotScope holds all slot contents indexed by name for a component instance.
@@ -109,7 +112,9 @@ func (v *Vue) evalSlot(ctx VueContext, node *html.Node, slotScope *SlotScope) ([
 				}
 
 				// Evaluate the template content (children of the template)
-				children, err := v.evaluateChildren(ctx, slotContent.TemplateNode, 0)
+				contentCtx := ctx
+				contentCtx.SlotScope = slotContent.Scope
+				children, err := v.evaluateChildren(contentCtx, slotContent.TemplateNode, 0)
 				if err != nil {
 					return nil, err
 				}
@@ -119,7 +124,7 @@ func (v *Vue) evalSlot(ctx VueContext, node *html.Node, slotScope *SlotScope) ([
 				// the slot gets its own copy of the nodes, and the content does not see this
 				// component's slots (an include inside it extracts its own).
 				contentCtx := ctx
-				contentCtx.SlotScope = nil
+				contentCtx.SlotScope = slotContent.Scope
 				children, err := v.evaluate(contentCtx, slotContent.Nodes, 0)
 				if err != nil {
 					return nil, err
